@@ -36,7 +36,9 @@
     Assumed about everything external (exercised by the harness, not modelled):
       - signature verification succeeds iff the harness signed with the right account number and
         sequence ([t_sig_ok]); gas metering: whether the transaction ran out of gas in the ante chain
-        or in the messages is an observed input ([t_gas_out]);
+        or in the messages is an input ([t_gas_out]): it is either observed or, for calibrated
+        transactions and for the block gas meter, DECIDED by [Fees/TxBlocks.gas_phase] from measured
+        consumption; what each phase does to the state is modelled here ([ante], [deliver]);
       - the bank moves coins exactly when the sender's balance covers them (accounts here have no
         vesting lock, hold, quarantine, sanction or marker restriction); every account that pays exists;
       - amounts stay far below 2^256 (no sdkmath.Int overflow panics);
@@ -126,7 +128,15 @@ Record routed := { r_type : mtype; r_custom : option custom; r_action : action; 
    router, in execution (pre-) order *)
 Record tmsg := { m_top : routed; m_nested : list routed }.
 
-Inductive gas_outcome := GasOk | GasAnte | GasMsgs.
+(* where the transaction runs out of gas, if at all:
+     GasAnte       inside the ante handler (its store branch is dropped: nothing is written)
+     GasMsgs       while the messages run (runTx keeps the ante effects, drops the messages')
+     GasPost       after the messages succeeded, when runTx charges the block gas meter just before
+                   FeeInvoke (consumeBlockGas panics; FeeInvoke itself runs on an infinite gas meter, so
+                   this is the only gas failure between the messages and the end of the transaction)
+     GasBlockFull  the block gas meter is already exhausted when the transaction starts: runTx returns
+                   before the ante handler *)
+Inductive gas_outcome := GasOk | GasAnte | GasMsgs | GasPost | GasBlockFull.
 
 Record tx := { t_fee : coins;                 (* declared fee *)
                t_gas : Z;                     (* gas limit *)
@@ -236,6 +246,16 @@ Definition fee_source (t : tx) : acct :=
 (** ** The ante chain (CheckTx: [is_check = true]; in a block: false) *)
 Definition gas_tx_limit : Z := 4000000.
 
+(* TxGasLimitDecorator.isOnlyGovMsgs: a transaction all of whose top-level messages are x/gov messages
+   ("/cosmos.gov." type urls) is exempt from the gas limit.  Message type ids >= 100 denote x/gov
+   message types (interning convention of the harness: 100 MsgSubmitProposal, 101 MsgVote). *)
+Definition gov_mtype (ty : mtype) : bool := N.leb 100 ty.
+Definition only_gov (t : tx) : bool :=
+  match t_msgs t with
+  | [] => false
+  | ms => forallb (fun m => gov_mtype (r_type (m_top m))) ms
+  end.
+
 Definition bump_seq (s : state) (signers : list acct) : state :=
   {| bal := bal s;
      seqn := fun a => if existsb (N.eqb a) signers then seqn s a + 1 else seqn s a;
@@ -249,7 +269,7 @@ Definition base_moves (src : acct) (base : coins) : list move :=
 Definition ante (cfg : config) (s : state) (t : tx) (is_check : bool) : option state :=
   match t_gas_out t with GasAnte => None | _ =>
   if t_gas t <=? 0 then None                                      (* "must provide positive gas" *)
-  else if gas_tx_limit <? t_gas t then None                       (* TxGasLimitDecorator *)
+  else if negb (only_gov t) && (gas_tx_limit <? t_gas t) then None   (* TxGasLimitDecorator *)
   else
     match calc cfg dist0 (routed_top t) with
     | None => None
@@ -364,11 +384,12 @@ Definition fee_invoke (cfg : config) (s : state) (t : tx) (base_charged : coins)
 Inductive result := RRejected | RAnteFail | RFailed | ROk.
 
 Definition deliver (cfg : config) (s : state) (t : tx) : state * result :=
+  match t_gas_out t with GasBlockFull => (s, RAnteFail) | _ =>      (* "no block gas left to run tx" *)
   match ante cfg s t false with
   | None => (s, RAnteFail)
   | Some s1 =>
       match t_gas_out t with
-      | GasMsgs => (s1, RFailed)
+      | GasMsgs | GasPost => (s1, RFailed)
       | _ =>
           match route_all cfg t (bal s1, meter0) (routed_all t) with
           | None => (s1, RFailed)
@@ -379,6 +400,7 @@ Definition deliver (cfg : config) (s : state) (t : tx) : state * result :=
               end
           end
       end
+  end
   end.
 
 (** ** Histories: a transaction is offered to the mempool and, when admitted, executed in the next
